@@ -139,6 +139,8 @@ def sweep(ctx, failures):
                 reordered += 1 if did else 0
             except W.Reject:
                 v = None
+            except Exception as ex:
+                v = {"clause": "the reordered program runs", "error": "%s: %s" % (type(ex).__name__, str(ex)[:200])}
         if v:
             failures.append((prog, v))
     # a crash is only reported if nothing more specific failed
